@@ -106,6 +106,9 @@ func init() {
 		if in.inInit > 0 {
 			return nil
 		}
+		if in.timersOn() {
+			in.timerSleep(tt(args[0])) // "clock:timers": intr_timer.go
+		}
 		in.yield()
 		return nil
 	})
